@@ -61,6 +61,53 @@ def gen_delta(rng, n, strat):
     return v
 
 
+def gen_se2_matrix(rng, strat):
+    """3x3 input of PoseSE2.from_matrix, stratified by how the matrix was made (to_matrix() of a pose, products, inverses,
+    scaled rotation blocks, arbitrary arrays) and by where its heading falls (four quadrants, on / next to the axes, the
+    branch cut at +-pi)"""
+
+    def heading():
+        r = rng.random()
+        if r < 0.4:  # strictly inside one of the four quadrants
+            return -math.pi + (rng.randrange(4) + rng.uniform(0.02, 0.98)) * math.pi / 2
+        if r < 0.8:  # on or next to an axis: 0, +-pi/2, +-pi
+            base = rng.choice([0.0, math.pi / 2, -math.pi / 2, math.pi, -math.pi])
+            return base + (0.0 if rng.random() < 0.3 else rng.sign() * rng.logu(1e-15, 1e-3))
+        return rng.angle()
+
+    def mat():
+        return np.asarray(PoseSE2([rng.scalar(), rng.scalar()], heading()).to_matrix(), dtype=np.float64)
+
+    r = rng.random()
+    if r < 0.35:
+        M, how = mat(), "to_matrix"
+    elif r < 0.55:
+        M, how = np.dot(mat(), mat()), "product"
+    elif r < 0.7:
+        M, how = np.linalg.inv(mat()), "inverse"
+    elif r < 0.8:
+        M, how = np.dot(np.linalg.inv(mat()), mat()), "inverse_times"
+    elif r < 0.9:  # from_matrix reads three entries whatever the rest is: a scaled rotation block has the same heading
+        M, how = mat(), "scaled"
+        M[:2, :2] *= rng.logu(1e-3, 1e3)
+    else:
+        M, how = np.array([[rng.scalar() for _ in range(3)] for _ in range(3)]), "arbitrary"
+        if rng.random() < 0.3:
+            M[1, 0] = rng.choice([0.0, -0.0])  # on the real axis, either side of the cut (signed zero)
+        if rng.random() < 0.15:
+            M[0, 0] = rng.choice([0.0, -0.0])
+    strat["from_matrix_" + how] += 1
+    y, x = float(M[1, 0]), float(M[0, 0])
+    th = math.atan2(y, x)
+    if abs(abs(th) - math.pi) < 1e-2:
+        strat["from_matrix_heading_near_pi"] += 1
+    elif min(abs(th), abs(abs(th) - math.pi / 2)) < 1e-2:
+        strat["from_matrix_heading_near_axis"] += 1
+    else:
+        strat["from_matrix_heading_q%d" % (1 if (x > 0 and y > 0) else 2 if y > 0 else 3 if x < 0 else 4)] += 1
+    return M, how
+
+
 def sym_info(rng, n):
     a = np.array([[rng.gauss(0, 1) for _ in range(n)] for _ in range(n)])
     return a @ a.T + np.eye(n) * rng.logu(1e-3, 1e2)
@@ -109,6 +156,13 @@ def one_case(d, rng, strat):
         return [], fl, flat(cls(*args)), dict(args=args)
     if kind == "static":
         return [], [], flat(getattr(CLS[py["cls"]], py["name"])()), {}
+    if kind == "from_matrix":
+        # classmethod: matrix -> pose (only PoseSE2 has one)
+        assert py["cls"] == "PoseSE2" and py["args"] == [["mat", 3, 3]], "from_matrix of an unexpected class / shape"
+        M, how = gen_se2_matrix(rng, strat)
+        out = getattr(CLS[py["cls"]], py["name"])(M)
+        assert type(out).__name__ == py["cls"], "from_matrix did not return a %s" % py["cls"]
+        return [], flat(M), flat(out), dict(how=how, matrix=flat(M))
     if kind == "iadd":
         obj = gen_pose(rng, py["cls"], strat)
         a = py["args"][0]
